@@ -37,6 +37,12 @@ def cases():
             op(o, "kv2", node("PropertyEQ", this=lit("c", True), expression=S("v")))]))),
         lambda o, i: P("Anonymous", this="TO_JSON", expressions=LIST(P("Struct", expressions=LIST(IS(o["kv1"]), IS(o["kv2"]))))),
         "OBJECT_CONSTRUCT omits pairs whose key or value is NULL")
+    add("OBJECT_CONSTRUCT('a', COALESCE(x, NULL, 'n/a')::VARCHAR): a value that merely mentions NULL is kept", "object_construct",
+        mk(lambda o: node("Struct", "stmt", expressions=Lst([
+            op(o, "kv1", node("PropertyEQ", this=lit("a", True),
+                              expression=node("Cast", this=node("Coalesce", this=S("x"), expressions=Lst([node("Null"), lit("n/a", True)])), to=dtype("VARCHAR"))))]))),
+        lambda o, i: P("Anonymous", this="TO_JSON", expressions=LIST(P("Struct", expressions=LIST(IS(o["kv1"]))))),
+        "only a pair whose value *is* NULL is omitted; an expression containing a NULL literal somewhere evaluates to a value")
     def not_empty_struct(v, path):
         inner = v.args.get("expressions").items[0] if isinstance(v, NodeV) and v.cls == "Anonymous" and isinstance(v.args.get("expressions"), Lst) \
             and v.args["expressions"].items else v
